@@ -82,3 +82,10 @@ Proof. exact bracket_text_round_trip. Qed.
 Theorem C14_bracket_descent_refuted : parse_path (print_path_b [NDescent; NChild [x61]]) = None.
 Proof. exact bracket_descent_refuted. Qed.
 Print Assumptions C14_bracket_text_round_trip.
+
+
+(* the same for expressions that start with @ (as inside filters) or directly with a fragment *)
+Theorem C14_path_text_round_trip_heads : forall h fs, Forall frag_ok fs ->
+  parse_path_h (print_path_h h fs) = Some (h, map norm_frag fs).
+Proof. exact path_text_round_trip_h. Qed.
+Print Assumptions C14_path_text_round_trip_heads.
